@@ -4,7 +4,10 @@
 
    `Shared { buffer, blocked_recv, has_receiver }` is the RefCell'd struct; the Rc strong
    count is the number of live handles (senders + receiver), which the script layer tracks
-   in a handle table.  Messages are Z. *)
+   in a handle table.  Messages are Z.
+   Models the tree after the repair of defect D5 (`fix:` commit 0de8a5f: close() wakes the
+   receiver, poll_next ends the stream once closed); the pinned behaviour and its refutation
+   are kept in Proofs/ChanPinned.v. *)
 From Coq Require Export ZArith.
 From AN Require Export Model.Counter.
 
@@ -19,9 +22,9 @@ Definition sender_send (s : shared) (v : Z) : shared * bool * list waker :=
   else let '(lw, ws) := lw_wake (blocked_recv s) in
        (mkShared (buffer s ++ [v]) lw (has_receiver s), true, ws).
 
-(* Sender::close *)
+(* Sender::close: `shared.has_receiver = false; shared.blocked_recv.wake()` *)
 Definition sender_close (s : shared) : shared * list waker :=
-  (mkShared (buffer s) (blocked_recv s) false, []).
+  let '(lw, ws) := lw_wake (blocked_recv s) in (mkShared (buffer s) lw false, ws).
 
 (* Drop for Sender; [strong] = Rc::strong_count before the handle goes away *)
 Definition sender_drop (s : shared) (strong : nat) : shared * list waker :=
@@ -31,9 +34,10 @@ Definition sender_drop (s : shared) (strong : nat) : shared * list waker :=
 
 Inductive pollres := Pending | Item (v : Z) | Finished.   (* Pending | Ready(Some v) | Ready(None) *)
 
-(* Stream::poll_next for Receiver; [strong] = Rc::strong_count *)
+(* Stream::poll_next for Receiver; [strong] = Rc::strong_count.
+   `if Rc::strong_count(..) == 1 || !shared.has_receiver { return Ready(buffer.pop_front()) }` *)
 Definition receiver_poll_next (s : shared) (strong : nat) (w : waker) : shared * pollres :=
-  if Nat.eqb strong 1 then
+  if Nat.eqb strong 1 || negb (has_receiver s) then
     match buffer s with
     | v :: b => (mkShared b (blocked_recv s) (has_receiver s), Item v)
     | [] => (s, Finished)
